@@ -185,6 +185,56 @@ def one_shot_history():
     return None
 
 
+def threads_history(n_threads=8, rounds=6):
+    """bounded: several threads parse (different) charts at the same time; every result must equal
+    the serial parse of the same text"""
+    import threading
+    import chartparse.chart as cc
+    import logging
+    logging.getLogger("chartparse.track").setLevel(logging.CRITICAL)
+    texts = [RICH, CHART_TEXTS[0], OTHER, CHART_TEXTS[1]] + [t for _, t in STRESS[:4]]
+    serial = [repr(observe(cc.Chart.from_file(io.StringIO(t)))) for t in texts]
+    bad = []
+    barrier = threading.Barrier(n_threads)
+
+    def work(k):
+        try:
+            barrier.wait(timeout=30)
+            for r in range(rounds):
+                j = (k + r) % len(texts)
+                got = repr(observe(cc.Chart.from_file(io.StringIO(texts[j]))))
+                if got != serial[j]:
+                    bad.append({"history": f"{n_threads} threads parsing concurrently; thread {k}, round {r}, chart #{j}",
+                                "observed": "the concurrent parse differs from the serial parse of the same text", "chart_text": texts[j]})
+        except Exception as e:
+            bad.append({"history": f"{n_threads} threads parsing concurrently; thread {k}", "observed": f"raised {type(e).__name__}: {e}"[:300]})
+    ths = [threading.Thread(target=work, args=(k,)) for k in range(n_threads)]
+    for t in ths:
+        t.start()
+    for t in ths:
+        t.join(120)
+    return bad[0] if bad else None
+
+
+def cross_check():
+    """thorough tier (bounded): all history scripts on the tree as it is"""
+    import logging
+    for nm in ("chartparse.track", "chartparse.chart"):
+        logging.getLogger(nm).setLevel(logging.CRITICAL)
+    out = []
+    for name, fn in (("read-only operations leave the chart equal to its twin", readonly_history), ("a parse does not depend on earlier parses or on the process", history_independence),
+                     ("section parsers on one-shot iterators", one_shot_history), ("concurrent parses equal serial parses", threads_history)):
+        import time as _t
+        t0 = _t.time()
+        try:
+            f = fn()
+        except Exception as e:
+            out.append({"unit": "fx:history/" + name, "ran": False, "reason": repr(e)[:300], "failing": None})
+            continue
+        out.append({"unit": "fx:history/" + name, "ran": True, "kind": "bounded: native history script against the real code", "seconds": round(_t.time() - t0, 2), "failing": f})
+    return out
+
+
 def replay(prop_hint, ob_name):
     fails = []
     try:
